@@ -10,6 +10,7 @@ import Grip.Model.C01
 import Grip.Spec.C01
 import GripProofs.Lemmas.C01
 import GripProofs.Lemmas.C01Typing
+import GripGen.CoreTyping
 
 namespace Grip.Props.C01
 open Grip Grip.C01 Grip.Spec.C01 Grip.Props.C01.Lemmas
@@ -156,6 +157,34 @@ theorem rows_have_shape (stmts : List Stmt) (st : TState) (rows : List Row)
 /-- The hand-written typing step equals the table interpreter over the hand-written table … -/
 theorem typeStep_is_table (st : TState) (s : Stmt) : typeStep st s = typeStepT handTable st s :=
   Lemmas.typeStep_eq_table st s
+
+/-- … and the hand-written table equals the table regenerated from engine/core/compile.go on this
+    run (finite check by `decide` over all statement kinds × variants; each entry lists the outcome
+    for all eight data types, the argument checks and the mark-recording flag).  A change to the
+    Go typing switch changes `GripGen.CoreTyping.table` and breaks this theorem. -/
+theorem typing_table_matches_source :
+    ∀ (k : Kind) (v : Variant), handTable.find k v = GripGen.CoreTyping.table.find k v := by
+  have h : (Kind.all.all fun k => Variant.all.all fun v =>
+      decide (handTable.find k v = GripGen.CoreTyping.table.find k v)) = true := by decide
+  intro k v
+  have hk := List.all_eq_true.1 h k (Kind.mem_all k)
+  have hv := List.all_eq_true.1 hk v (Lemmas.Variant.mem_all v)
+  exact of_decide_eq_true hv
+
+/-- Hence the typing MODEL is the Go switch as it is in the source today, for every statement and
+    every typing state. -/
+theorem typeStep_is_source_switch (st : TState) (s : Stmt) :
+    typeStep st s = typeStepT GripGen.CoreTyping.table st s := by
+  rw [typeStep_is_table]
+  exact Lemmas.typeStepT_congr _ _ typing_table_matches_source st s
+
+/-- Statements may only follow what the switch admits: e.g. nothing but `count`, `limit`, `skip`,
+    `range`, `as`, `unwind` (and the loop/assignment statements) is accepted after `count`. -/
+theorem after_count_only_rowwise (marks : MarkTypes) (s : Stmt) (st' : TState)
+    (h : typeStep ⟨.count, marks⟩ s = .ok st') :
+    s.kind ∈ [Kind.limit, .skip, .range, .count, .as_, .unwind, .set, .increment, .mark, .jump,
+              .lookupVertsIndex, .engineCustom] := by
+  cases s <;> simp_all [typeStep, Stmt.kind, moveToVertex, moveToEdge, needElement]
 
 /-! ### non-vacuity -/
 
